@@ -375,14 +375,17 @@ def tvalStr : TVal → Str
   | .str s => s
   | _ => []
 
+/-- `fence_span_idx < len(fence_spans) and pos == fence_spans[fence_span_idx][0]` -/
+def atSpanStart (st : LState) : Bool :=
+  match st.spans with | sp :: _ => st.pos == sp.start | [] => false
+
 /-- one iteration of `while pos < len(content)`; `s` is the non-empty remaining input. -/
 def step (env : Env) (lenient : Bool) (st : LState) (s : Str) : Except Exc (LState × Str) :=
   match s with
   | [] => .ok (st, [])
   | c :: r =>
   -- fence span branch
-  let atSpan := match st.spans with | sp :: _ => st.pos == sp.start | [] => false
-  if atSpan then
+  if atSpanStart st then
     match st.spans with
     | [] => .ok (st, s)
     | sp :: spans' =>
